@@ -4,3 +4,4 @@
 pub mod r1;
 pub mod r2;
 pub mod r3;
+pub mod r4;
